@@ -23,6 +23,8 @@ open Bpmn.Props.C12 Bpmn.Props.EngineCurrent
 #print axioms Bpmn.Props.C12Steps.return_when_scope_empty
 #print axioms Bpmn.Props.C12Nest.descend
 #print axioms Bpmn.Props.C12Nest.ascend
+#print axioms Bpmn.Props.C12Nest.inner_step
+#print axioms Bpmn.Props.C12Nest.inner_chain
 #print axioms Bpmn.Props.C12Nest.nest_run
 #print axioms Bpmn.Props.C12Nest.nest_shape
 #print axioms Bpmn.Props.C12Nest.nestProc_run
